@@ -14,11 +14,11 @@ def plan(tier, seed):
             for tlen in ((1, 2) if q else (1, 2, 3)):
                 conds.append(Cond("c09-sym-code%d-%s-len%d" % (code, H.FORMS[form], tlen), F, "c09_sym",
                                   env={"C09_OP": 0, "C09_CODE": code, "C09_FORM": form, "C09_TLEN": tlen},
-                                  timeout=280 if q else 3000))
+                                  timeout=280 if q else 1500))
     if not q:
         for opi in (1, 6, 7):
             conds.append(Cond("c09-sym-%s-quoted-len2" % H.OPS[opi][0], F, "c09_sym",
-                              env={"C09_OP": opi, "C09_CODE": 0, "C09_FORM": 1, "C09_TLEN": 2}, timeout=3000))
+                              env={"C09_OP": opi, "C09_CODE": 0, "C09_FORM": 1, "C09_TLEN": 2}, timeout=1500))
     conds.append(Cond("c09-vacuity", F, "c09_pool", env={"C09_OP": 0}, timeout=90, vacuity=True))
     meta = dict(functions=["sievelib.managesieve.Client.__read_line", "__read_response", "__parse_error", "__send_command",
                            "deletescript/putscript/setactive/havespace/checkscript/renamescript/getscript/listscripts/capability"],
